@@ -566,6 +566,9 @@ class RP:
         if k == 'str':
             self.i += 1
             return ('lit', 'str', v)
+        if k == 'chr':
+            self.i += 1
+            return ('lit', 'chr', v)
         if k == 'op' and v == '(':
             self.i += 1
             if self.at_op(')'):
